@@ -9,18 +9,33 @@
 EXTENDS Naturals, Sequences, FiniteSets, TLC, Json
 CONSTANTS MaxLen, Emit,
           LinkFlagsDropped,      \* TRUE = pinned tree: the link directive loses its hard-link flag (stored as symlink)
-          CycleCheckStartOnly    \* TRUE = pinned tree: resolve_link only notices cycles through the starting link
+          CycleCheckStartOnly,   \* TRUE = pinned tree: resolve_link only notices cycles through the starting link
+          GlobLinkPrefixDropped  \* TRUE = pinned tree: hard links found by `glob <prefix>` name their target without the prefix
 Paths == {<<"a">>, <<"b">>, <<"a", "a">>, <<"a", "b">>, <<"b", "a">>, <<>>}
 Kinds == {"dir", "file", "slink", "link", "pipe"}
-Directive == [kind : Kinds \ {"link"}, path : Paths, uid : {0, 1}, tgt : {<<>>}]
-             \cup [kind : {"link"}, path : Paths \ {<<>>}, uid : {0}, tgt : Paths \ {<<>>}]
+(* `glob <path> ... [-nohardlinks|-nonrecursive] <location>` (bin/gensquashfs/src/glob.c, lib/common/src/           *)
+(* dir_tree_iterator.c, lib/sqfs/src/io/dir_hl.c): scans a source directory on disk and adds what it finds below       *)
+(* <path>.  Two fixed source trees: S1 = {a, b = hard link of a}; S2 = {a/, a/a, a/b = hard link of a/a, b}.            *)
+GlobSrcs == {"S1", "S2"}
+GlobOpts == {"none", "nohl", "nonrec"}
+Directive == [kind : Kinds \ {"link"}, path : Paths, uid : {0, 1}, tgt : {<<>>}, src : {"-"}, opt : {"-"}]
+             \cup [kind : {"link"}, path : Paths \ {<<>>}, uid : {0}, tgt : Paths \ {<<>>}, src : {"-"}, opt : {"-"}]
+             \cup [kind : {"glob"}, path : Paths, uid : {1}, tgt : {<<>>}, src : GlobSrcs, opt : GlobOpts]
+SrcEntries(src) ==                      \* in scan order (sorted, parents first); hl = second name of an inode already seen
+  IF src = "S1" THEN << [rel |-> <<"a">>, kind |-> "file", tgt |-> <<>>], [rel |-> <<"b">>, kind |-> "hl", tgt |-> <<"a">>] >>
+  ELSE << [rel |-> <<"a">>, kind |-> "dir", tgt |-> <<>>], [rel |-> <<"a", "a">>, kind |-> "file", tgt |-> <<>>],
+          [rel |-> <<"a", "b">>, kind |-> "hl", tgt |-> <<"a", "a">>], [rel |-> <<"b">>, kind |-> "file", tgt |-> <<>>] >>
+GlobEntries(src, opt) ==
+  LET all == SrcEntries(src)
+      kept == IF opt = "nonrec" THEN SelectSeq(all, LAMBDA e : Len(e.rel) = 1) ELSE all
+  IN [i \in 1..Len(kept) |-> IF opt = "nohl" /\ kept[i].kind = "hl" THEN [kept[i] EXCEPT !.kind = "file", !.tgt = <<>>] ELSE kept[i]]
 Parent(p) == SubSeq(p, 1, Len(p) - 1)
 Prefixes(p) == {SubSeq(p, 1, k) : k \in 1..(Len(p) - 1)}
 
 (* nodes: function path -> [kind, uid, implicit, tgt] ; the root always exists (implicitly) *)
 N0 == (<<>> :> [kind |-> "dir", uid |-> 0, implicit |-> TRUE, tgt |-> <<>>])
 Has(nodes, p) == p \in DOMAIN nodes
-Add(nodes, d) ==                       \* returns [ok, nodes]
+Add1(nodes, d) ==                      \* returns [ok, nodes]
   IF d.path = <<>> /\ d.kind # "dir" THEN [ok |-> FALSE, nodes |-> nodes]                \* only dir may name /
   ELSE IF \E q \in Prefixes(d.path) : Has(nodes, q) /\ nodes[q].kind # "dir"
        THEN [ok |-> FALSE, nodes |-> nodes]                                                 \* ENOTDIR
@@ -33,6 +48,24 @@ Add(nodes, d) ==                       \* returns [ok, nodes]
                 THEN [ok |-> TRUE, nodes |-> [n1 EXCEPT ![d.path] = new]]
                 ELSE [ok |-> FALSE, nodes |-> nodes])                                       \* EEXIST
           ELSE [ok |-> TRUE, nodes |-> [q \in DOMAIN n1 \cup {d.path} |-> IF q = d.path THEN new ELSE n1[q]]]
+
+(* glob: the prefix directory is looked up with implicit creation (itself included); then every scanned entry whose  *)
+(* parent exists as a directory is added like a directive of its own (EEXIST etc. abort the run), others are skipped  *)
+RECURSIVE GlobFold(_, _, _, _)
+GlobFold(nodes, d, ents, i) ==
+  IF i > Len(ents) THEN [ok |-> TRUE, nodes |-> nodes]
+  ELSE LET e == ents[i]  full == d.path \o e.rel  par == Parent(full) IN
+       IF ~Has(nodes, par) \/ nodes[par].kind # "dir" THEN GlobFold(nodes, d, ents, i + 1)
+       ELSE LET r == Add1(nodes, [kind |-> (IF e.kind = "hl" THEN "link" ELSE e.kind), path |-> full, uid |-> d.uid,
+                                   tgt |-> (IF e.kind # "hl" THEN <<>> ELSE IF GlobLinkPrefixDropped THEN e.tgt ELSE d.path \o e.tgt)])
+            IN IF ~r.ok THEN r ELSE GlobFold(r.nodes, d, ents, i + 1)
+GlobAdd(nodes, d) ==
+  IF \E q \in Prefixes(d.path) \cup {d.path} : Has(nodes, q) /\ nodes[q].kind # "dir" THEN [ok |-> FALSE, nodes |-> nodes]
+  ELSE LET missing == {q \in (Prefixes(d.path) \cup {d.path}) \ {<<>>} : ~Has(nodes, q)}
+           n1 == [q \in DOMAIN nodes \cup missing |->
+                    IF q \in missing THEN [kind |-> "dir", uid |-> 0, implicit |-> TRUE, tgt |-> <<>>] ELSE nodes[q]]
+       IN GlobFold(n1, d, GlobEntries(d.src, d.opt), 1)
+Add(nodes, d) == IF d.kind = "glob" THEN GlobAdd(nodes, d) ELSE Add1(nodes, d)
 
 RECURSIVE Build(_, _)
 Build(prog, nodes) == IF prog = <<>> THEN [ok |-> TRUE, nodes |-> nodes]
@@ -64,8 +97,7 @@ Meaning(prog) ==
              same |-> {<<p, res[p][2]>> : p \in Links(b.nodes)}]
 
 VARIABLE prog
-Progs == UNION {[1..k -> Directive] : k \in 1..MaxLen}
-Init == prog \in Progs
+Init == \E k \in 1..MaxLen : prog \in [1..k -> Directive]      \* enumerated lazily (a UNION would be built as one set)
 Next == UNCHANGED prog
 Spec == Init /\ [][Next]_prog
 NeverHangs == Meaning(prog).outcome # "hang"
@@ -75,5 +107,13 @@ TreeClosed == Meaning(prog).outcome = "ok" =>
 (* every link directive of a successful program shares the inode of a non-link entry *)
 HardLinksShare == Meaning(prog).outcome = "ok" =>
                     \A p \in Links(Build(prog, N0).nodes) : \E x \in Meaning(prog).same : x[1] = p
+(* names that share an inode in the scanned directory share one in the image (and nothing else is pulled in) *)
+GlobLinksFaithful ==
+  Meaning(prog).outcome = "ok" =>
+    \A i \in 1..Len(prog) : prog[i].kind = "glob" =>
+      LET ents == GlobEntries(prog[i].src, prog[i].opt) IN
+      \A k \in 1..Len(ents) : ents[k].kind = "hl" =>
+        LET p == prog[i].path \o ents[k].rel IN
+        (\E x \in Meaning(prog).same : x[1] = p) => <<p, prog[i].path \o ents[k].tgt>> \in Meaning(prog).same
 EmitOK == Emit => PrintT(<<"RESULT", ToJson([prog |-> prog, m |-> Meaning(prog)])>>)
 =============================================================================
